@@ -37,6 +37,11 @@ CONSTANTS
 
 VARIABLES st, hist
 
+(* max_dispatch_interval in ticks (-1 = none): the time limit of one pass over a limited queue.  Selected
+   through Acts ("intv0".."intv3") so that configurations which do not use it need no further constant. *)
+MaxIntv == IF "intv0" \in Acts THEN 0 ELSE IF "intv1" \in Acts THEN 1 ELSE IF "intv2" \in Acts THEN 2
+           ELSE IF "intv3" \in Acts THEN 3 ELSE -1
+
 vars == <<st, hist>>
 
 ----------------------------------------------------------------------------
@@ -96,6 +101,8 @@ InitSt ==
     qi |-> 0, blocked |-> FALSE, forced |-> FALSE, cblog |-> <<>>, ret |-> 0, gctr |-> 0,
     sigleft |-> 0, cur |-> 0, done |-> FALSE, wi |-> 0, wq |-> <<>>,
     ndef |-> 0,        \* n_deferreds_queued
+    tc |-> -1,         \* tv_cache: the time the loop cached after its last wait (-1 = no cached time)
+    endt |-> -1,       \* end time of the current event_process_active pass (max_dispatch_interval)
     fuzz |-> FALSE,
     amb |-> FALSE ]    \* a harness-forced break cut a tie group: what ran depends on the unspecified tie order   \* the maxima depend on the (unspecified) order of a tie that occurred
 
@@ -158,6 +165,10 @@ SetTimeout(S, x, dl, cq) ==
      THEN SetTimeoutNoCt(S2, CT(cq), dl, 0)      \* common_timeout_schedule
      ELSE S2
 
+(* gettime(): inside the loop, between the return of the wait and the next wait, the library answers
+   with the time it cached (callbacks that take long do not move it) *)
+Now(S) == IF S.tc >= 0 THEN S.tc ELSE S.now
+
 InsIfNeeded(S, x) ==
   IF Kind(x) \in {"io", "sig"} /\ S.ev[x].fl \cap {"INS", "ACT", "LATER"} = {}
   THEN InsInserted(S, x) ELSE S
@@ -169,7 +180,7 @@ AddOp(S, x, t, q) ==
            d == IF q # 0 THEN S.ctdur[q] ELSE t
            S2 == IF t = -1 /\ q = 0 THEN S1
                  ELSE LET S1a == IF Closure(x) = "persist" THEN [S1 EXCEPT !.ev[x].iv = d, !.ev[x].ivq = q] ELSE S1
-                      IN SetTimeout(S1a, x, S.now + d, q)
+                      IN SetTimeout(S1a, x, Now(S) + d, q)
        IN [s |-> S2, r |-> 0]
 
 (* event_active_nolock_ *)
@@ -197,7 +208,7 @@ RECURSIVE TimeoutProcessRec(_)
 TimeoutProcessRec(S) ==
   IF Heap(S) = {} THEN S
   ELSE LET x == HeapTop(S) IN
-       IF S.ev[x].dl > S.now THEN S
+       IF S.ev[x].dl > Now(S) THEN S
        ELSE LET tie == \E y \in Heap(S) \ {x} : S.ev[y].dl = S.ev[x].dl
             IN TimeoutProcessRec(FireTimeout([S EXCEPT !.fuzz = @ \/ tie], x, <<S.gctr, S.ev[x].dl + 1>>))
 
@@ -205,7 +216,7 @@ RECURSIVE CommonTimeoutCb(_, _)
 CommonTimeoutCb(S, q) ==
   IF S.ctq[q] = <<>> THEN S
   ELSE LET x == Head(S.ctq[q]) IN
-       IF S.ev[x].dl > S.now THEN SetTimeoutNoCt(S, CT(q), S.ev[x].dl, 0)
+       IF S.ev[x].dl > Now(S) THEN SetTimeoutNoCt(S, CT(q), S.ev[x].dl, 0)
        ELSE CommonTimeoutCb(FireTimeout(S, x, <<>>), q)
 
 (* event_finalize / event_free_finalize *)
@@ -232,7 +243,7 @@ OnceOp(S, t, user) ==
   LET o == OnceSlot(S)
       S1 == [S EXCEPT !.ev[o] = [InitEv(o) EXCEPT !.alloc = TRUE, !.user = user]]
   IN IF t <= 0 THEN ActiveCore(S1, o, {"T"}, 1, <<>>)
-     ELSE SetTimeout(S1, o, S.now + t, 0)
+     ELSE SetTimeout(S1, o, Now(S) + t, 0)
 
 ----------------------------------------------------------------------------
 (* The API operations as pure functions S -> [s, r].  `op` is a record with
@@ -263,6 +274,9 @@ ApplyOp(S, op) ==
                                               !.fuzz = IF op.n = 5 THEN FALSE ELSE @], r |-> 0]
     [] op.a = "wnew" -> [s |-> [S EXCEPT !.watch = Append(@, [id |-> op.e, k |-> op.k, s |-> op.s, x |-> op.x])], r |-> 0]
     [] op.a = "wfree" -> [s |-> [S EXCEPT !.watch = SelectSeq(@, LAMBDA w: w.id # op.e)], r |-> 0]
+    \* a callback that takes t ticks (script op only); event_base_update_cache_time()
+    [] op.a = "adv" -> [s |-> [S EXCEPT !.now = @ + op.t], r |-> 0]
+    [] op.a = "upd" -> [s |-> IF S.pc = "idle" THEN S ELSE [S EXCEPT !.tc = S.now], r |-> 0]
     [] OTHER -> [s |-> S, r |-> -99]
 
 (* Which operations are legal (defined behaviour) in state S.  inCb = the event
@@ -377,6 +391,8 @@ ScriptSet ==
   {[a |-> "none"]}
   \cup (IF "break" \in ScriptOps THEN {[a |-> "break"]} ELSE {})
   \cup (IF "cont" \in ScriptOps THEN {[a |-> "cont"]} ELSE {})
+  \cup (IF "adv" \in ScriptOps THEN {[a |-> "adv", t |-> t] : t \in DurSet \ {0}} ELSE {})
+  \cup (IF "upd" \in ScriptOps THEN {[a |-> "upd"]} ELSE {})
   \cup (IF "exit" \in ScriptOps THEN {[a |-> "exit", t |-> 0]} ELSE {})
   \cup (IF "act" \in ScriptOps THEN {[a |-> "act", e |-> e, r |-> 2, n |-> 1] : e \in UserEv} ELSE {})
   \cup (IF "later" \in ScriptOps THEN {[a |-> "later", e |-> e, r |-> 2] : e \in UserEv} ELSE {})
@@ -422,7 +438,7 @@ IterTop ==
      IF S0.term \/ S0.brk \/ S0.done THEN st' = [S0 EXCEPT !.pc = "ret"]
      ELSE LET tmo == IF NAct(S0) = 0 /\ ~FlagNonblock(S0)
                      THEN (IF Heap(S0) = {} THEN INF
-                           ELSE Max(0, S0.ev[HeapTop(S0)].dl - S0.now))
+                           ELSE Max(0, S0.ev[HeapTop(S0)].dl - Now(S0)))
                      ELSE 0
           IN IF ~FlagNoExit(S0) /\ S0.cnt = 0 /\ NAct(S0) = 0
              THEN st' = [S0 EXCEPT !.pc = "ret", !.ret = 1]
@@ -483,7 +499,7 @@ Wait ==
                                                [] S0.pol = "over" -> S0.tmo + 1
                                                [] OTHER -> IF S0.tmo > 1 THEN S0.tmo - 1 ELSE S0.tmo)]
          S2 == ActivateSet([S1 EXCEPT !.fuzz = @ \/ Cardinality(rdy) >= 2], rdy, <<S1.gctr, 0>>)
-     IN st' = [S2 EXCEPT !.pc = "check", !.wq = SelectSeq(S2.watch, LAMBDA w: w.k = "check")]
+     IN st' = [S2 EXCEPT !.pc = "check", !.tc = S2.now, !.wq = SelectSeq(S2.watch, LAMBDA w: w.k = "check")]
   /\ UNCHANGED hist
 
 TimeoutProcess ==
@@ -499,7 +515,9 @@ ProcessStart ==
   /\ st.pc = "pstart"
   /\ IF NAct(st) = 0
      THEN st' = [st EXCEPT !.pc = "top", !.done = FlagNonblock(st)]
-     ELSE st' = [st EXCEPT !.pc = "pq", !.qi = 0, !.n = 0]
+     ELSE st' = [st EXCEPT !.pc = "pq", !.qi = 0, !.n = 0,
+                           !.tc = IF MaxIntv >= 0 THEN st.now ELSE @,
+                           !.endt = IF MaxIntv >= 0 THEN st.now + MaxIntv ELSE -1]
   /\ UNCHANGED hist
 
 (* leave event_process_active with result c *)
@@ -520,10 +538,13 @@ LimitFor(S) == IF S.runprio < LimitPrio \/ MaxCb = 0 THEN 1000000 ELSE MaxCb
 AfterCb(S0) ==
   LET cut == S0.brk /\ (S0.forced \/ S0.blocked) /\ S0.cur # 0 /\ S0.aq[S0.runprio] # <<>>
              /\ S0.ev[S0.cur].g # <<>> /\ S0.ev[Head(S0.aq[S0.runprio])].g = S0.ev[S0.cur].g
-      S == [S0 EXCEPT !.amb = @ \/ cut]
+      S1 == [S0 EXCEPT !.amb = @ \/ cut]
+      \* a limited queue re-reads the clock after every counted callback (and refreshes the cached time)
+      timed == ~S1.brk /\ S1.cnt1 < LimitFor(S1) /\ S1.cnt1 > 0 /\ MaxIntv >= 0 /\ S1.runprio >= LimitPrio
+      S == IF timed THEN [S1 EXCEPT !.tc = S1.now] ELSE S1
   IN
   IF S.brk THEN EndProcess(S, -1)
-  ELSE IF S.cnt1 >= LimitFor(S) \/ S.cont \/ S.aq[S.runprio] = <<>>
+  ELSE IF S.cnt1 >= LimitFor(S) \/ (timed /\ S.now >= S.endt) \/ S.cont \/ S.aq[S.runprio] = <<>>
        THEN (IF S.cnt1 > 0 THEN EndProcess([S EXCEPT !.n = S.cnt1], S.cnt1)
              ELSE [S EXCEPT !.pc = "pq", !.qi = S.runprio + 1, !.n = 0, !.cur = 0])
        ELSE [S EXCEPT !.cur = 0]
@@ -547,8 +568,8 @@ SigIntCb(S) ==
 
 PersistResched(S, x) ==
   IF S.ev[x].iv # 0 \/ S.ev[x].ivq # 0
-  THEN LET rel == IF "T" \in S.ev[x].res THEN S.ev[x].dl ELSE S.now
-           run == IF rel + S.ev[x].iv < S.now THEN S.now + S.ev[x].iv ELSE rel + S.ev[x].iv
+  THEN LET rel == IF "T" \in S.ev[x].res THEN S.ev[x].dl ELSE Now(S)
+           run == IF rel + S.ev[x].iv < Now(S) THEN Now(S) + S.ev[x].iv ELSE rel + S.ev[x].iv
        IN SetTimeout(InsIfNeeded(S, x), x, run, S.ev[x].ivq)
   ELSE S
 
@@ -592,7 +613,7 @@ SignalCall ==
 
 LoopReturn ==
   /\ st.pc = "ret"
-  /\ st' = [st EXCEPT !.pc = "idle", !.runprio = -1]
+  /\ st' = [st EXCEPT !.pc = "idle", !.runprio = -1, !.tc = -1, !.endt = -1]
   /\ hist' = Append(hist, [a |-> "loop", f |-> st.lflags, pol |-> st.pol, o |-> LoopObs(st')])
 
 LoopStep == IterTop \/ Prepare \/ Wait \/ Check \/ TimeoutProcess \/ ProcessStart \/ PickQueue
